@@ -4,7 +4,10 @@ import (
 	"fmt"
 	"hash"
 	"strings"
+	"sync"
 	"sync/atomic"
+
+	_ "unsafe" // go:linkname
 
 	"github.com/ja7ad/otp"
 	"github.com/ja7ad/otp/verifharness/ref"
@@ -110,6 +113,81 @@ func inSet(s string, set []string) bool {
 
 // derivation counting through the HMAC-constructor seam (sequential use only).
 var hmacCtorCalls, derivBase atomic.Int64
+
+// ---- work fuse: a breaker for every validation call of C03/C04 in the parallel enumerations (plain build) ----
+//
+// All HMAC objects come from the constructor seam.  With the fuse installed the seam counts constructions per
+// processor (P), try() re-arms the count of the P it starts on, and a call that drives a P's count beyond
+// fuseBudget is cut off with a recognisable panic.  The per-P count is only a TRIGGER (a goroutine may migrate):
+// the cut-off case is put on a suspect list and decided afterwards, sequentially and exactly, by
+// countDerivations (a window of s <= 10 holds at most 2s+1 <= 21 candidates).  Without the fuse a validation
+// loop that never ends would wedge the whole check instead of being reported.
+const fuseBudget = 5000
+const fuseMsg = "verif-fuse: cut off after more than 5000 HMAC computations on one processor"
+
+//go:linkname procPin runtime.procPin
+func procPin() int
+
+//go:linkname procUnpin runtime.procUnpin
+func procUnpin()
+
+var (
+	fuseOn  atomic.Bool
+	fuseCnt [1024]struct {
+		n int64
+		_ [56]byte
+	}
+	suspectMu sync.Mutex
+	suspects  []any
+)
+
+func fuseArm() {
+	if !fuseOn.Load() {
+		return
+	}
+	p := procPin()
+	fuseCnt[p%1024].n = 0
+	procUnpin()
+}
+
+func addSuspect(c any) {
+	suspectMu.Lock()
+	if len(suspects) < 64 {
+		suspects = append(suspects, c)
+	}
+	suspectMu.Unlock()
+}
+
+func takeSuspects() []any {
+	suspectMu.Lock()
+	defer suspectMu.Unlock()
+	s := suspects
+	suspects = nil
+	return s
+}
+
+// installFuse replaces the three HMAC constructors by counting ones for the rest of the process.
+func installFuse() {
+	if fuseOn.Swap(true) {
+		return
+	}
+	for a := 0; a < 3; a++ {
+		std := ref.NewHMAC(a)
+		otp.VerifSetHMAC(otp.Algorithm(a), func(key []byte) hash.Hash {
+			p := procPin()
+			fuseCnt[p%1024].n++
+			over := fuseCnt[p%1024].n > fuseBudget
+			if over {
+				fuseCnt[p%1024].n = 0
+			}
+			procUnpin()
+			if over {
+				panic(fuseMsg)
+			}
+			return std(key)
+		})
+	}
+}
 
 // derivBudget bounds the derivations of one counted call: a deterministic breaker for loops over a client-chosen window.
 const derivBudget = 500
